@@ -92,7 +92,9 @@ GenC(d, c) ==
       [] k = "not" -> [k |-> "not", x |-> GenC(0, c)]
 
 InSwitchOfLoop(c) == FALSE
-FreeNames(c) == {"x", "y", "z"} \ c.defd
+\* Excluded_F_C11_1: in a session program a nested block does not shadow a variable (the
+\* interpreter assigns the global of the same name instead - known finding of C11)
+FreeNames(c) == ({"x", "y", "z"} \ c.defd) \ (IF Profile = "session" /\ ~Pinned THEN c.rd ELSE {})
 FreeClos(c)  == {"c1", "c2"} \ (c.defd \cup c.clos)
 FreePtrs(c)  == {"p1", "p2"} \ (c.defd \cup c.ptrs)
 Inner(c)     == [c EXCEPT !.defd = {}, !.d = c.d - 1]
